@@ -242,6 +242,13 @@ pub fn towers(f: &F, d: usize) -> Vec<LTerm> {
         for _ in 0..d {
             t = mk(t);
         }
+        if d >= 16 {
+            // the tower inside a container whose enum counterpart hashes its members (a set, a conjunction),
+            // and as an operand of a symmetric statement
+            out.push(LTerm::Set { left_bracket: cb.brackets_set_extension.0.to_string(), terms: vec![t.clone(), other.clone()], right_bracket: cb.brackets_set_extension.1.to_string() });
+            out.push(LTerm::Compound { connecter: cb.connecter_conjunction.to_string(), terms: vec![other.clone(), t.clone()] });
+            out.push(LTerm::Statement { copula: f.e.statement.copula_similarity.to_string(), subject: Box::new(t.clone()), predicate: Box::new(other.clone()) });
+        }
         out.push(t);
     }
     // mixed tower cycling through all makers
@@ -427,6 +434,22 @@ pub fn u_sent(f: &F) -> Vec<LN> {
         }
     }
     out.extend(numeric_family(f));
+    out
+}
+
+/// a dozen sentences / tasks over two terms, built directly (cheap: used where a whole process exists only
+/// to evaluate one of them): punctuations, stamps, truth and budget lists rotated against each other
+pub fn few_sentences(f: &F) -> Vec<LN> {
+    let ts = [atom("", "a"), reps(f).into_iter().last().unwrap()];
+    let (ps, sts, trs, bs) = (f.punctuations(), stamps(f), truths(), budgets());
+    let mut out = vec![];
+    for k in 0..12usize {
+        let s = LS { term: ts[k % 2].clone(), punctuation: ps[k % ps.len()].to_string(), stamp: sts[(k * 3) % sts.len()].clone(), truth: trs[(k * 5) % trs.len()].clone() };
+        out.push(match bs[(k * 7) % bs.len()].clone() {
+            None => LN::Sentence(s),
+            Some(b) => LN::Task(LT { budget: b, sentence: s }),
+        });
+    }
     out
 }
 
